@@ -35,24 +35,24 @@ import (
 //	235            authentication successful
 //	535            authentication failed
 type AdvStep struct {
-	Sym       string `json:"sym"`            // symbol actually played
-	Valid     bool   `json:"valid"`          // first-ok / final-ok that is valid for the running exchange
-	ClientMsg string `json:"client"`         // class of the client's answer: first | final | empty | cancel | other | none
-	Exchange  int    `json:"exchange"`       // index of the running exchange (incremented by every client-first)
+	Sym       string `json:"sym"`      // symbol actually played
+	Valid     bool   `json:"valid"`    // first-ok / final-ok that is valid for the running exchange
+	ClientMsg string `json:"client"`   // class of the client's answer: first | final | empty | cancel | other | none
+	Exchange  int    `json:"exchange"` // index of the running exchange (incremented by every client-first)
 }
 
 type adversary struct {
-	a      AuthCfg
-	h      func() hash.Hash
-	plus   bool
-	sess   *Session
-	pos    int
-	Trace  []AdvStep
-	exch   int
-	cn     string
-	bare   string
-	first  string // valid server-first sent in this exchange ("" if none)
-	final  string // client-final-without-proof received after the valid server-first
+	a     AuthCfg
+	h     func() hash.Hash
+	plus  bool
+	sess  *Session
+	pos   int
+	Trace []AdvStep
+	exch  int
+	cn    string
+	bare  string
+	first string // valid server-first sent in this exchange ("" if none)
+	final string // client-final-without-proof received after the valid server-first
 	// the previous exchange, as far as it got
 	prevBare, prevFirst, prevFinal string
 	iter0First                     string // the i=0 server-first of this exchange, if one was sent
